@@ -235,6 +235,53 @@ void h_pass_chain_step(void) {
 #endif
 }
 
+/* ---------- termination: a pass that grows no reference moves no label (unbounded in program length) ----------
+   E (exit state of any earlier pass; proved by pass.chain / pass.ref for every element): stored offsets are chained with
+   the current sizes, every label's value is its stored offset.  Invariant J of the next pass: while no reference has
+   grown, the running offset reproduces the stored offset of the directive about to be visited and `changed` is false.
+   At the end: changed => some length strictly grew.  Lengths never shrink and are at most 8 (pass.ref.step frame), so the
+   sum of (8 - length) strictly decreases in every pass that continues: at most 7n + 2 passes (the sum is paper glue). */
+static bool grown;
+static bool INV_PROGRESS(void) {
+  return COMMON() && (grown || (!changed && (_i == prog_n || ALIGN_IF_DATA(&program[_i], byteOffset) == program[_i].Directive_byteOffset)));
+}
+void h_progress_base(void) {
+  pass_state();
+  __CPROVER_assume(WF(&program[0], prog_n, false) && program[0].Directive_byteOffset == 0);   /* E: the first directive sits at 0 */
+  changed = false; unaligned = NULL; byteOffset = 0; _i = 0; grown = false; firstPass = false;
+  __CPROVER_assert(INV_PROGRESS(), "C05 termination: progress invariant holds at pass entry");
+}
+void h_progress_step(void) {
+  pass_state();
+  grown = nondet_bool(); firstPass = false;
+  __CPROVER_assume(_i < prog_n);
+  __CPROVER_assume(INV_PROGRESS());
+  Directive *D = &program[_i];
+  __CPROVER_assume(WF(D, prog_n, false));
+  /* E instantiated at the visited directive and its successor */
+  __CPROVER_assume(!ISLABEL(D) || D->Label_labelValue == D->Directive_byteOffset);
+  size_t size0 = V_getSize(D);
+  __CPROVER_assume(_i + 1 >= prog_n || (WF(&program[_i + 1], prog_n, false) &&
+                   program[_i + 1].Directive_byteOffset == ALIGN_IF_DATA(&program[_i + 1], D->Directive_byteOffset + (int)size0)));
+  size_t len0 = D->InstrLabel_length; bool isref = D->cls == CLS_InstrLabel; size_t i0 = _i;
+  int r = pass_body(D);
+  if (r < 0) return;
+  _i = i0 + 1;
+  __CPROVER_assert(!isref || D->InstrLabel_length >= len0, "C05 termination: encoding lengths never shrink");
+  __CPROVER_assert(!isref || D->InstrLabel_length <= 8, "C05 termination: encoding lengths never exceed 8");
+  if (isref && D->InstrLabel_length > len0) grown = true;
+  __CPROVER_assert(INV_PROGRESS(), "C05 termination: while no reference grows the layout reproduces itself (invariant re-established)");
+#ifdef CANARY
+  __CPROVER_assert(0, "canary: harness end reachable");
+#endif
+}
+void h_progress_exit(void) {
+  pass_state();
+  grown = nondet_bool();
+  __CPROVER_assume(INV_PROGRESS() && _i == prog_n);
+  __CPROVER_assert(!changed || grown, "C05 termination: a pass that moves a label has strictly grown some reference (so at most 7n+2 passes)");
+}
+
 /* ---------- emission: one iteration of emitProgramBin's loop for an arbitrary directive ---------- */
 static unsigned spec_opcode(Token t) {
   return t == T_LDAM ? I_LDAM : t == T_LDBM ? I_LDBM : t == T_STAM ? I_STAM : t == T_LDAC ? I_LDAC : t == T_LDBC ? I_LDBC : t == T_LDAP ? I_LDAP :
@@ -461,6 +508,11 @@ def jobs_for(unit, tier, prefix="C05"):
         J("pass.chain.base", unit, "h_pass_chain_base", unwind=9, functions=["resolveLabels pass"], role="aux"),
         J("pass.chain.step", unit, "h_pass_chain_step", replace=["instrLen"], unwind=9, object_bits=12, timeout=1500, stop_on_fail=True, functions=["resolveLabels pass body"],
           note="property-level: layout in source order without overlap, DATA aligned"),
+        J("progress.base", unit, "h_progress_base", functions=["resolveLabels pass"], role="aux"),
+        J("progress.step", unit, "h_progress_step", replace=["instrLen"], unwind=9, object_bits=12, timeout=1500, stop_on_fail=True, functions=["resolveLabels pass body"], role="aux",
+          note="termination ingredient, unbounded in program length: no reference grows => layout reproduces itself"),
+        J("progress.exit", unit, "h_progress_exit", functions=["resolveLabels (end of a pass)"], role="aux", note="changed => some length strictly grew"),
+        J("progress.step.canary", unit, "h_progress_step", replace=["instrLen"], unwind=9, object_bits=12, defines=["CANARY"], kind="canary", checks=[], timeout=1500),
         J("emit.step", unit, "h_emit_step", unwind=9, timeout=900, stop_on_fail=True, functions=["emitProgramBin loop body", "emitProgramText loop body", "Directive::getSize/getValue"],
           note="per directive, arbitrary running offset; loops bounded by 8 bytes fully unwound"),
         J("header.lemma", unit, "h_header", functions=["CodeGen::CodeGen size/padding arithmetic", "getProgramSize", "emitBin header word"]),
@@ -493,7 +545,7 @@ def main(chk, replay_file, pid=PID):
         "accepted programs: every referenced label is declared (otherwise UnknownLabelError, proved to be the only error inside a pass); programs have at least one directive and fewer than 100000 (images below 2^28 bytes)",
         "composition on paper: pass invariant (base+step) => fixed-point exit lemma => emission precondition; emit.step + chain => whole-image layout; C04 emit contract is re-proved here on the loop body",
         "outer loop of resolveLabels, the constructor and emitBin are compared textually with the structure the lemmas were written for (any change aborts with exit 2)",
-        "termination is only a BOUNDED stand-in (programs of at most 4 (quick) / 6 (thorough) directives), never counted as proved",
+        "termination: proved ingredients (unbounded in program length): lengths never shrink and are <= 8; a pass in which no reference grows reproduces the layout and moves no label (progress.base/step/exit). That the sum of (8 - length) over a symbolic-length list is a decreasing measure (hence <= 7n+2 passes) is paper glue. The additional termination.bounded job re-checks the measure directly on all programs of <= 4/6 directives (BOUNDED, not counted as proved)",
         "C++ exceptions abstracted to a ghost flag; unique_ptr ownership and object lifetime dropped",
     ]
     exe = None
@@ -532,6 +584,9 @@ def main(chk, replay_file, pid=PID):
                 rr = json.loads(o)
             except Exception:
                 rr = {"ok": None}
+            if rc == -9:
+                chk.add_violation(name, p, "%s; real hexasm does not terminate on this program (60 s)" % f["desc"], True)
+                continue
             if rr.get("ok") is False and (pid == "C17" or rr.get("class") == 1):
                 chk.add_violation(name, p, "%s; real hexasm: %s" % (f["desc"], rr.get("why")), True)
                 continue
